@@ -160,7 +160,11 @@ Definition run_coord (x : sx) : sx :=
                | Some (_, o) => A (outcome_key (o_status o) (ver_name (o_ver o)) (o_whole o) (bytes "*"))
                | None => A (bytes "pending")
                end in
-  L [of_strs (sort_strs (map (fun p => enc_outcome (snd p)) (co_done s1)));
+  (* with a chunked origin (no Content-Length) the client of a fetch the origin cut cannot see the cut:
+     rrrouter ends the response normally, empty (finding F39) *)
+  let nocl := sx_bool (sx_nth 5 x) in
+  let view o := if nocl && negb (o_whole o) then mkOut (o_status o) (o_ver o) true (o_cache o) else o in
+  L [of_strs (sort_strs (map (fun p => enc_outcome (view (snd p))) (co_done s1)));
      of_nat (co_nfetch s2); of_nat (co_maxin s2); I 0; final; of_bool true].
 
 (* observation = L [snapshot per action ...; last snapshot; final]
@@ -199,7 +203,12 @@ Definition mon_C12 (x o : sx) : sx :=
   else if Nat.ltb (count_cut_answers (sx_list (sx_nth 4 x))) (length (filter (fun k => str_eqb (key_field k 2) (bytes "cut")) outs))
   then verdict false "a client other than the one whose fetch the origin cut received an incomplete response"
   else if existsb (fun k => str_eqb (key_field k 0) (bytes "200") && str_eqb (key_field k 2) (bytes "whole") && negb (nonempty (key_field k 1))) outs
-  then verdict false "a 200 response did not carry a version of the resource"
+  then (* known: the client of a fetch a chunked origin cut gets an empty, well-formed 200 *)
+       if sx_bool (sx_nth 5 x)
+          && Nat.leb (length (filter (fun k => str_eqb (key_field k 0) (bytes "200") && str_eqb (key_field k 2) (bytes "whole") && negb (nonempty (key_field k 1))) outs))
+                     (count_cut_answers (sx_list (sx_nth 4 x)))
+       then verdict_kf false "a 200 response did not carry a version of the resource" "F39-chunked-cut"
+       else verdict false "a 200 response did not carry a version of the resource"
   else if negb (Z.eqb (sx_int (sx_nth 3 o)) 0) then verdict false "the key was left locked"
   else v_ok.
 
